@@ -115,6 +115,7 @@ def plan(tier, seed):
     p = [("C13a", seed, n, [])]
     if HAS_B:
         p.append(("C13b", seed, n, []))
+        p.append(("C13bfiles", seed, 40 if tier == "quick" else 2000, []))
     return p
 
 
